@@ -85,7 +85,7 @@ def new_trace(dirpath: str, files: Optional[Dict[int, str]] = None, parser: Opti
     if pc is not None:
         kw["parser_config"] = pc
     if files is not None:
-        return Trace(trace_files=dict(files), trace_dir=dirpath, **kw)
+        return Trace(trace_files=dict(files) if isinstance(files, dict) else list(files), trace_dir=dirpath, **kw)
     return Trace(trace_dir=dirpath, **kw)
 
 
